@@ -381,7 +381,7 @@ func main() {
 	run.Count("pairs", pairs)
 
 	// large universe, arbitrary field bytes
-	nr := run.N(20000, 1000000)
+	nr := run.N(60000, 1000000)
 	rng := run.Rand(99)
 	alphabet := []string{"", "a", "b", "repository", "registry", "catalog", "*", "pull", "push", "x:y", "a,b", " ", "p q", "\x00", "é", "delete", "A"}
 	randRS := func() RS {
